@@ -162,7 +162,7 @@ class SpawnProcess(multiprocessing.context.SpawnProcess):
 
         self._logger_thread_ = Thread(
             target=self._run_logger,
-            args=(self._logger_queue_,),
+            args=(self._logger_queue_, self.sentinel),
             name=f'{self.name}-LoggerThread',
             daemon=getattr(self, 'daemon', None),
         )
@@ -181,9 +181,24 @@ class SpawnProcess(multiprocessing.context.SpawnProcess):
         )
 
     @staticmethod
-    def _run_logger(q: multiprocessing.queues.Queue):
+    def _run_logger(q: multiprocessing.queues.Queue, sentinel=None):
+        # Handle the child's log records until the child has exited and the pipe is drained.
+        # The end is not signalled by a marker sent through the queue by this process:
+        # a child that was killed may have died holding the queue's (cross-process) write lock,
+        # and then the marker would never get written.
+        reader = q._reader
         while True:
-            record = q.get()
+            try:
+                if sentinel is not None and not reader.poll():
+                    ready = multiprocessing.connection.wait([reader, sentinel])
+                    if reader not in ready:
+                        # The child has exited and has left nothing more in the pipe.
+                        break
+                record = q.get()
+            except (EOFError, OSError):
+                # The child was killed while it was writing a record
+                # (the write end in this process is closed in ``_collect_result``).
+                break
             if record is None:
                 break
             logger = logging.getLogger(record.name)
@@ -234,16 +249,18 @@ class SpawnProcess(multiprocessing.context.SpawnProcess):
         else:
             self._future_.set_result(result)
 
-        # The child flushes its log records to the queue before it exits. Stop the
-        # logger thread only after that; otherwise the stop marker may overtake
-        # records (which are then lost) or the child may block on a full pipe
-        # that is no longer read.
+        # The child flushes its log records to the queue before it exits. The logger
+        # thread stops by itself once the child has exited and the pipe is drained.
+        # If the child was killed in the middle of a record, the rest never comes;
+        # close the write end of this process so that the reader gets an error
+        # instead of waiting for it.
         multiprocessing.connection.wait([self.sentinel])
-        self._logger_queue_.put(None)
+        self._logger_queue_._writer.close()
 
     @staticmethod
     def _finalize(logger_thread, q):
-        q.put(None)
+        if not q._writer.closed:
+            q.put(None)
         # Do not `join` the thread here. This is a weakref callback; if the object is
         # reclaimed by the cyclic garbage collector, it runs at an arbitrary point of an
         # arbitrary thread, e.g. inside `threading` internals that hold the lock
